@@ -255,6 +255,15 @@ Error RACFGBuilder::on_instruction(InstNode* inst, InstControlFlow& cf, RAInstBu
               }
             }
 
+            // Do not use RegMem flag if the register form zero extends a part of the virtual register that the
+            // memory form would not write - for example `add eax, ecx` vs `add dword [mem], ecx` when the virtual
+            // register is 64-bit.
+            if (Support::test(flags, RATiedFlags::kWrite) && Support::test(flags, RATiedFlags::kUseRM | RATiedFlags::kOutRM)) {
+              if (work_reg->reg_byte_mask() & op_rw_info.extend_byte_mask()) {
+                flags &= ~(RATiedFlags::kUseRM | RATiedFlags::kOutRM);
+              }
+            }
+
             RegGroup group = work_reg->group();
             RegMask use_regs = _pass._available_regs[group] & allowed_regs;
             RegMask out_regs = use_regs;
